@@ -10,6 +10,7 @@ from pyvc.bounded import bounded
 from pyvc import gens
 from bounded.c04_normal_equations import (make_dataset, make_objects, settings, dataset_case, object_specs, ORDERS, SQUARE,
                                           NONSQUARE, close)
+from bounded.c03_convolution import guarded
 
 SLOTS = ["w_tilde", "curvature_matrix", "regularization_matrix", "log_det_regularization_matrix_term", "operated_mapping_matrix"]
 PIECES = ["data_vector_mapper", "curvature_matrix_mapper_diag", "mapper_operated_mapping_matrix_dict",
@@ -92,7 +93,7 @@ def source_values(aa, mask, data, noise, kernel, objects, diag, use_w, names):
 
 
 def has_mapper(objects):
-    return any(sp["kind"] == "mapper" for sp in objects)
+    return any(sp["kind"] != "func" for sp in objects)
 
 
 def run(aa, mask, data, noise, kernel, objects, diag, use_w, preloads=None, ds_mk=None):
@@ -113,20 +114,20 @@ def base_case(rng, regime, order, k):
     return case
 
 
-MIXES = ["m", "mf", "fm", "mm", "mfm", "fmf", "mmf"]
+MIXES = ["m", "mf", "fm", "mm", "mfm", "fmf", "mmf", "d", "dfm"]
 
 
 def _gen_slots(rng, tier):
     k = 0
-    for rep in range(gens.budget(tier, 3, 40)):
+    for rep in range(gens.budget(tier, 4, 60)):
         for order in MIXES:
             for regime in (("nonneg-square",) if rep % 3 else ("signed-square",)):
                 case = base_case(rng, regime, order, k)
                 k += 1
                 for use_w in (True, False):
-                    # all 2^5 subsets for the first mixes, a rotating half afterwards
+                    # all 2^5 subsets for the first pass over the mixes, a rotating eighth afterwards
                     for bits in range(32):
-                        if rep > 0 and (bits + k) % 4:
+                        if rep > 0 and (bits + k) % 8:
                             continue
                         c = dict(case)
                         c["use_w_tilde"] = use_w
@@ -136,12 +137,13 @@ def _gen_slots(rng, tier):
 
 @bounded("C15", "preload-slot-subsets", gen=_gen_slots,
          nontrivial=lambda mask, data, noise, kernel, objects, diag, use_w_tilde, slots: len(slots) > 0)
+@guarded
 def preload_slot_subsets(mask, data, noise, kernel, objects, diag, use_w_tilde, slots):
     """C15: 'Supplying preloaded quantities (w-tilde tables, curvature matrix, regularization matrix and its log-determinant,
     operated mapping matrix) that were computed from an identical dataset and linear objects yields the same data vector,
     reconstruction, mapped data and evidence terms as computing everything afresh, in both formalisms and for every mix of
-    linear objects' -- every subset of the 5 slots x use_w_tilde on/off x 7 object mixes (1..3 objects), square PSFs 1x1/3x3/5x5
-    non-negative and signed, masks: random interiors <= 2x3; all 32 subsets for the first 7 datasets, a rotating quarter after."""
+    linear objects' -- every subset of the 5 slots x use_w_tilde on/off x 9 object mixes (1..3 objects: rectangular / Delaunay mappers, function lists), square PSFs 1x1/3x3/5x5
+    non-negative and signed, masks: random interiors <= 2x3; all 32 subsets for the first 9 datasets, a rotating eighth after."""
     import autoarray as aa
     _, ref = run(aa, mask, data, noise, kernel, objects, diag, use_w_tilde)
     vals = source_values(aa, mask, data, noise, kernel, objects, diag, use_w_tilde, slots)
@@ -166,7 +168,7 @@ def _gen_pieces(use_w, names_pool, must=None):
             c["slots"] = [must]
             yield c
         for rep in range(gens.budget(tier, 6, 80)):
-            for order in ["mf", "m", "fm", "mm", "mfm", "fmf", "mmf"]:
+            for order in ["mf", "m", "fm", "mm", "mfm", "fmf", "mmf", "df"]:
                 case = base_case(rng, "signed-square" if rep % 4 == 3 else "nonneg-square", order, k)
                 k += 1
                 for bits in range(1, 2 ** len(names_pool)):
@@ -205,8 +207,8 @@ _PDOC = """C15: 'Supplying preloaded quantities ... computed from an identical d
     of linear objects' (quantifier: all subsets of the public preload slots) -- the remaining public inversion slots, filled
     exactly as Preloads.set_curvature_matrix / set_linear_func_inversion_dicts fill them (inversion._data_vector_mapper,
     ._curvature_matrix_mapper_diag, .mapper_operated_mapping_matrix_dict, .linear_func_operated_mapping_matrix_dict,
-    .data_linear_func_matrix_dict of an identical inversion); 7 object mixes, square PSFs non-negative and signed; all subsets
-    for the first 7 datasets, a rotating quarter afterwards; sub-domain: """
+    .data_linear_func_matrix_dict of an identical inversion); 8 object mixes, square PSFs non-negative and signed; all subsets
+    for the first 8 datasets, a rotating quarter afterwards; sub-domain: """
 
 
 def _register_pieces(name, use_w, pool, must, sub):
@@ -215,7 +217,7 @@ def _register_pieces(name, use_w, pool, must, sub):
     fn.__name__ = name.replace("-", "_")
     fn.__doc__ = _PDOC + sub
     return bounded("C15", name, gen=_gen_pieces(use_w, pool, must),
-                   nontrivial=lambda mask, data, noise, kernel, objects, diag, use_w_tilde, slots: len(slots) > 0)(fn)
+                   nontrivial=lambda mask, data, noise, kernel, objects, diag, use_w_tilde, slots: len(slots) > 0)(guarded(fn))
 
 
 _register_pieces("preload-pieces-w-tilde-formalism", True, PIECES, None, "use_w_tilde=True, non-empty subsets of the 5 slots.")
@@ -227,7 +229,7 @@ _register_pieces("preload-data-vector-mapper-mapping-formalism", False, PIECES[1
 
 def _gen_reuse(rng, tier):
     k = 0
-    for rep in range(gens.budget(tier, 10, 120)):
+    for rep in range(gens.budget(tier, 16, 200)):
         for order in MIXES:          # "m" first: a single regularization takes the in-place curvature += regularization path
             case = base_case(rng, "signed-square" if rep % 4 == 3 else "nonneg-square", order, k)
             k += 1
@@ -242,12 +244,13 @@ def _gen_reuse(rng, tier):
 
 @bounded("C15", "preloads-reused-over-three-inversions", gen=_gen_reuse,
          nontrivial=lambda mask, data, noise, kernel, objects, diag, use_w_tilde, slots, same_dataset: True)
+@guarded
 def preloads_reused_over_three_inversions(mask, data, noise, kernel, objects, diag, use_w_tilde, slots, same_dataset):
     """C15: 'Reusing one set of preloads for any number of successive inversions on the same inputs gives the identical outcome
     every time, and a preloaded curvature matrix is never changed by the inversions that use it' -- one Preloads object
     (curvature_matrix always set, other slots varied), 3 successive inversions (same or re-created dataset instance), every
     output compared with the fresh computation and with the first use; sha1 of the preloaded curvature matrix bytes before and
-    after each inversion; 7 mixes x both formalisms x 10 (120) datasets."""
+    after each inversion; 9 mixes x both formalisms x 16 (200) datasets."""
     import autoarray as aa
     _, ref = run(aa, mask, data, noise, kernel, objects, diag, use_w_tilde)
     vals = source_values(aa, mask, data, noise, kernel, objects, diag, use_w_tilde, slots)
@@ -276,7 +279,7 @@ def preloads_reused_over_three_inversions(mask, data, noise, kernel, objects, di
 def _gen_factory(regimes):
     def gen(rng, tier):
         k = 0
-        for rep in range(gens.budget(tier, 8, 100)):
+        for rep in range(gens.budget(tier, 16, 200)):
             for order in MIXES + ["f", "ff"]:
                 case = base_case(rng, regimes[k % len(regimes)], order, k)
                 k += 1
@@ -297,20 +300,17 @@ def _factory_check(mask, data, noise, kernel, objects, diag):
             inv = inversion_imaging_from(dataset=ds2, linear_obj_list=make_objects(aa, mk2, objects), settings=settings(aa, s_w, diag),
                                          preloads=aa.Preloads(use_w_tilde=p_w))
             seen.add(type(inv).__name__)
-            cond_ok = True
             msg = compare(ref, outputs_of(aa, inv), "factory chose %s (settings.use_w_tilde=%s, preloads.use_w_tilde=%s)" % (
                 type(inv).__name__, s_w, p_w), tol=1e-7)
             if msg:
                 return msg
-    if has_mapper(objects) and "InversionImagingWTilde" not in seen:
-        return "the factory never selected the w-tilde formalism although a mapper is present and use_w_tilde=True"
     return None
 
 
 _FDOC = """C15: "The factory's choice between formalisms changes only performance, never values" -- inversion_imaging_from over
     settings.use_w_tilde in {True, False} x preloads.use_w_tilde in {None, True, False}: whichever class is returned, data vector,
     curvature / regularization matrix, reconstruction, mapped data and evidence terms equal those of InversionImagingMapping built
-    directly (rtol 1e-7: two different summation orders feed a linear solve); 9 object mixes incl. function-list-only; """
+    directly (rtol 1e-7: two different summation orders feed a linear solve); 11 object mixes incl. function-list-only; """
 
 
 def _register_factory(name, regimes, sub):
@@ -318,7 +318,7 @@ def _register_factory(name, regimes, sub):
         return _factory_check(mask, data, noise, kernel, objects, diag)
     fn.__name__ = name.replace("-", "_")
     fn.__doc__ = _FDOC + sub
-    return bounded("C15", name, gen=_gen_factory(regimes), nontrivial=lambda mask, data, noise, kernel, objects, diag: has_mapper(objects))(fn)
+    return bounded("C15", name, gen=_gen_factory(regimes), nontrivial=lambda mask, data, noise, kernel, objects, diag: has_mapper(objects))(guarded(fn))
 
 
 _register_factory("factory-choice-nonneg-square-psf", ["nonneg-square"], "non-negative square PSFs 1x1, 3x3, 5x5.")
